@@ -268,7 +268,7 @@ func runC12(c *core.Ctx, i int) {
 				case op < 44: // Encoder[T] on a private writer
 					kind = "encoder"
 					var buf bytes.Buffer
-					if err := sh.stat.Encode(&buf, sh.statV, lib.EncodeCfg{Compression: avro.CompressionSnappy, BlockSize: 64, Plan: lib.FlushPlan{AtEnd: 1}}); err != nil {
+					if err := sh.stat.Encode(&buf, sh.statV, lib.EncodeCfg{Compression: compressions[gr.IntN(3)], BlockSize: 64, Plan: lib.FlushPlan{AtEnd: 1}}); err != nil {
 						fail(kind, err.Error())
 					} else if cont, err := refavro.ReadContainer(buf.Bytes()); err != nil {
 						fail(kind, err.Error())
